@@ -29,9 +29,17 @@ func (c *Client) startTLS(config *tls.Config) error {
 		return err
 	}
 
-	// The decoder goroutine will invoke Client.upgradeStartTLS
-	<-upgradeDone
-	return nil
+	// The decoder goroutine will invoke Client.upgradeStartTLS, unless the
+	// connection goes down before the end of the tagged response
+	select {
+	case <-upgradeDone:
+		return nil
+	case <-c.decCh:
+		if err := c.decErr; err != nil {
+			return err
+		}
+		return io.ErrUnexpectedEOF
+	}
 }
 
 func (c *Client) upgradeStartTLS(tlsConfig *tls.Config) {
